@@ -30,9 +30,15 @@ type c11Config struct {
 	N     int    `json:"n"`
 	Unit  string `json:"unit"`
 	Proxy string `json:"proxy"` // "" = CLI middleware; "trust-all", "trust-set" = library middleware
+	Spell string `json:"spelling,omitempty"` // the unit as written in the declaration when it is not the lower-case word
 }
 
-func (c c11Config) String() string { return fmt.Sprintf("%d/%s%s", c.N, c.Unit, c.Proxy) }
+func (c c11Config) String() string {
+	if c.Spell != "" {
+		return fmt.Sprintf("%d/%q%s", c.N, c.Spell, c.Proxy)
+	}
+	return fmt.Sprintf("%d/%s%s", c.N, c.Unit, c.Proxy)
+}
 
 func c11Window(unit string) time.Duration {
 	switch unit {
@@ -58,6 +64,7 @@ type c11Event struct {
 	Kind   string `json:"kind"`              // "req" | "adv"
 	From   string `json:"from,omitempty"`    // remote address
 	XFF    string `json:"xff,omitempty"`     // forged / proxied X-Forwarded-For
+	XRI    string `json:"xri,omitempty"`     // forged / proxied X-Real-IP (sent without X-Forwarded-For)
 	AdvNum int64  `json:"adv_num,omitempty"` // advance = window*num/den, or absolute ns if den==0
 	AdvDen int64  `json:"adv_den,omitempty"`
 }
@@ -74,6 +81,9 @@ func (e c11Event) String() string {
 	}
 	if e.XFF != "" {
 		return fmt.Sprintf("req(%s,xff=%s)", e.From, e.XFF)
+	}
+	if e.XRI != "" {
+		return fmt.Sprintf("req(%s,x-real-ip=%s)", e.From, e.XRI)
 	}
 	return "req(" + e.From + ")"
 }
@@ -99,6 +109,18 @@ func c11Alphabet(cfg c11Config) []c11Event {
 			{Kind: "adv", AdvNum: int64(6 * time.Minute)},
 		}
 	}
+	if strings.HasSuffix(cfg.Proxy, "/xri") {
+		// the other forwarding header, alone: same trust rule, smaller alphabet
+		return []c11Event{
+			{Kind: "req", From: ipA},
+			{Kind: "req", From: ipB},
+			{Kind: "req", From: ipA, XRI: ipB},
+			{Kind: "req", From: ipProxy, XRI: ipA},
+			{Kind: "req", From: ipProxy, XFF: ipA},
+			{Kind: "adv", AdvNum: 1, AdvDen: 2},
+			{Kind: "adv", AdvNum: 1, AdvDen: 1},
+		}
+	}
 	if cfg.Proxy != "" {
 		ev = append(ev, c11Event{Kind: "req", From: ipProxy, XFF: ipA})
 	}
@@ -107,17 +129,21 @@ func c11Alphabet(cfg c11Config) []c11Event {
 
 // client identity the property assigns to a request under the configuration.
 func c11Client(cfg c11Config, e c11Event) string {
-	switch cfg.Proxy {
+	fwd := e.XFF
+	if fwd == "" {
+		fwd = e.XRI
+	}
+	switch strings.TrimSuffix(cfg.Proxy, "/xri") {
 	case "":
 		return e.From // forwarding headers are never honoured
 	case "trust-all":
-		if e.XFF != "" {
-			return e.XFF
+		if fwd != "" {
+			return fwd
 		}
 		return e.From
 	case "trust-set":
-		if e.XFF != "" && e.From == ipProxy {
-			return e.XFF
+		if fwd != "" && e.From == ipProxy {
+			return fwd
 		}
 		return e.From
 	case "trust-bad", "flood":
@@ -170,10 +196,14 @@ func newC11SysJudged(cfg c11Config, asConverted bool) *c11Sys {
 	}
 	var mw server.Middleware
 	if cfg.Proxy == "" {
-		mw = rateLimitMiddleware(&ast.RateLimit{Requests: uint32(cfg.N), Window: cfg.Unit})
+		w := cfg.Unit
+		if cfg.Spell != "" {
+			w = cfg.Spell // the unit as written in the declaration (the window it denotes stays cfg.Unit's)
+		}
+		mw = rateLimitMiddleware(&ast.RateLimit{Requests: uint32(cfg.N), Window: w})
 	} else {
 		// library middleware: per-minute configuration only
-		switch cfg.Proxy {
+		switch strings.TrimSuffix(cfg.Proxy, "/xri") {
 		case "trust-set":
 			server.SetTrustedProxies([]string{ipProxy})
 		case "trust-bad":
@@ -190,6 +220,9 @@ func newC11SysJudged(cfg c11Config, asConverted bool) *c11Sys {
 func (s *c11Sys) request(e c11Event) (status int, ran bool) {
 	req := httptest.NewRequest("GET", "/r", nil)
 	req.RemoteAddr = fmt.Sprintf("%s:%d", e.From, 40000+len(s.resp))
+	if e.XRI != "" {
+		req.Header.Set("X-Real-IP", e.XRI)
+	}
 	if e.XFF != "" {
 		req.Header.Set("X-Forwarded-For", e.XFF)
 	}
@@ -361,7 +394,7 @@ func c11Key(cfg c11Config, events []c11Event, fail string) string {
 	}
 	var sh []string
 	for _, e := range events {
-		e.From, e.XFF = canon(e.From), canon(e.XFF)
+		e.From, e.XFF, e.XRI = canon(e.From), canon(e.XFF), canon(e.XRI)
 		sh = append(sh, e.String())
 	}
 	unit := cfg.Unit
@@ -411,6 +444,14 @@ func TestVerif_C11(t *testing.T) {
 		cfgs = append(cfgs, c11Config{N: n, Unit: "min", Proxy: "trust-all"}, c11Config{N: n, Unit: "min", Proxy: "trust-set"},
 			c11Config{N: n, Unit: "min", Proxy: "trust-bad"})
 	}
+	// the other forwarding header alone, and unit spellings other than lower case (the window a declaration denotes does
+	// not depend on how its unit is capitalised or spaced): shallower histories
+	for _, px := range []string{"trust-all/xri", "trust-set/xri", "trust-bad/xri"} {
+		cfgs = append(cfgs, c11Config{N: 2, Unit: "min", Proxy: px})
+	}
+	for _, sp := range [][2]string{{"sec", "Sec"}, {"min", "Min"}, {"hour", "Hour"}, {"hour", "HOUR"}, {"hour", " hour"}, {"day", "Day"}, {"min", "MIN "}} {
+		cfgs = append(cfgs, c11Config{N: 2, Unit: sp[0], Spell: sp[1]})
+	}
 	cfgs = append([]c11Config{{N: 1, Unit: "min", Proxy: "flood"}, {N: 2, Unit: "min", Proxy: "flood"}}, cfgs...)
 	res.Bounds["history_depth"] = depth
 	res.Bounds["configurations"] = len(cfgs)
@@ -423,6 +464,9 @@ func TestVerif_C11(t *testing.T) {
 		if cfg.Proxy == "flood" {
 			depth = 4
 			res.Bounds["flood_history_depth"] = depth
+		} else if cfg.Spell != "" || strings.HasSuffix(cfg.Proxy, "/xri") {
+			depth = 5
+			res.Bounds["spelling_and_x_real_ip_history_depth"] = depth
 		} else {
 			res.Bounds["alphabet_size"] = len(alpha)
 		}
